@@ -13,8 +13,41 @@ def set_dims(np_, ne):
     NP, NE = np_, ne
 
 
+TINY = 2.0 ** -20          # variant 2: the 4th scalar is a genuinely tiny number instead of 1/2
+BASE = 1 << 20
+SCALE = 1 << 8
+DEG = 6
+
+
+def retiny(c):
+    """Variant 2 runs the program with the 4th scalar eps = 2^-20 (exact in binary floating point for programs of depth
+    <= 4).  Every coefficient is then a Laurent polynomial sum_k a_k eps^k with small dyadic a_k; the digits a_k are
+    recovered exactly (balanced base-2^20 digits) and the polynomial is re-evaluated at eps = 1/2, the value the 4th
+    scalar has in spec/Algebra.tla.  An exact, invertible re-encoding - coefficients the library drops because they are
+    'small' change the digits."""
+    c = Fraction(c)
+    N = c * (BASE ** DEG) * SCALE
+    if N.denominator != 1:
+        raise proj.Inexact("coefficient %r is not a short Laurent polynomial in 2^-20" % c)
+    N = N.numerator
+    out = Fraction(0)
+    for j in range(0, 2 * DEG + 1):          # digit of BASE^j  <->  eps^(DEG - j)
+        r = N % BASE
+        if r > BASE // 2:
+            r -= BASE
+        N = (N - r) // BASE
+        if r:
+            k = DEG - j
+            out += Fraction(r, SCALE) * (Fraction(1, 2) ** k if k >= 0 else Fraction(2) ** (-k))
+    if N != 0:
+        raise proj.Inexact("coefficient %r has too many digits" % c)
+    return out
+
+
 def scalar(i, variant):
     n, d = SCAL[i - 1]
+    if variant == 2 and i == 4:
+        return TINY
     if d == 1:
         return int(n) if variant == 0 else float(n)
     return n / d
@@ -22,6 +55,13 @@ def scalar(i, variant):
 
 def junk(i):
     return {"str": "a", "none": None, "list": [1], "cplx": 1j}[JUNK[i - 1]]
+
+
+VARIANT = 0
+
+
+def _re(v):
+    return [retiny(x) for x in v] if VARIANT == 2 else v
 
 
 def flat(o):
@@ -32,7 +72,7 @@ def flat(o):
     if o is None:
         return out
     if isinstance(o, Point):
-        v = proj.pvec(o, NP)
+        v = _re(proj.pvec(o, NP, exact=VARIANT != 2) if VARIANT != 2 else _pvec_any(o))
         out.update(k="pt", pn=[x.numerator for x in v], pd=[x.denominator for x in v])
         return out
     if isinstance(o, Constraint):
@@ -44,8 +84,39 @@ def flat(o):
     else:
         out["k"] = "other:" + type(o).__name__
         return out
-    out.update(proj.jex(e, NP, NE))
+    if VARIANT == 2:
+        F, G, c = _evec_any(e)
+        F, G, c = _re(F), _re(G), retiny(c)
+        out.update(Fn=[x.numerator for x in F], Fd=[x.denominator for x in F], Gn=[x.numerator for x in G],
+                   Gd=[x.denominator for x in G], c=[c.numerator, c.denominator])
+    else:
+        out.update(proj.jex(e, NP, NE))
     return out
+
+
+def _pvec_any(p):
+    v = [Fraction(0)] * NP
+    for k, w in p.decomposition_dict.items():
+        v[k.counter] += Fraction(w)
+    return v
+
+
+def _evec_any(e):
+    from PEPit import Expression
+    idx = proj.pair_index(NP)
+    F = [Fraction(0)] * NE
+    G = [Fraction(0)] * len(idx)
+    c = Fraction(0)
+    for k, w in e.decomposition_dict.items():
+        w = Fraction(w)
+        if isinstance(k, Expression):
+            F[k.counter] += w
+        elif isinstance(k, tuple):
+            i, j = sorted((k[0].counter, k[1].counter))
+            G[idx[(i, j)]] += w
+        else:
+            c += w
+    return F, G, c
 
 
 def operand(x, objs, variant):
@@ -93,7 +164,9 @@ def run(item):
     warnings.simplefilter("ignore")
     if "dims" in item:
         set_dims(*item["dims"])
+    global VARIANT
     variant = item["variant"]
+    VARIANT = variant
     PEP()
     objs = [Point() for _ in range(NP)] + [Expression() for _ in range(NE)]
     objs.append(objs[NP] <= 0)
